@@ -7,6 +7,7 @@ package main
 import (
 	"fmt"
 	"go/token"
+	"regexp"
 	"sort"
 	"strings"
 
@@ -154,12 +155,22 @@ func c12LenBlock(c *Ctx, f *ssa.Function) {
 			continue
 		}
 		s := be.bytesOf(call.Call.Args[1], call).String()
+		dbg("C12 lenblock operand: %s", s)
 		if strings.HasPrefix(s, "concat(") && strings.Count(s, "mul(0x8,len(") == 2 && strings.Index(s, "len(A)") < strings.Index(s, "len(C)") {
-			okLast = true
+			// exactly the two serialised lengths: nothing before, between or after them (a block that starts with
+			// 16 zero bytes from a pre-sized make is 32 bytes long and the lengths fall outside the absorbed block)
+			inner := strings.TrimSuffix(strings.TrimPrefix(s, "concat("), ")")
+			inner = strings.TrimPrefix(inner, "const:nil:[]byte,")
+			inner = strings.TrimPrefix(inner, "make(0x0),")
+			if reLenBlock.MatchString(inner) {
+				okLast = true
+			}
 		}
 	}
 	c.Check(okLast, "U-C12-lenblock", fn, "length block absorbed as A-bits || C-bits", "", "no GHASH step absorbs the concatenation of the two serialised bit lengths", f.Pos())
 }
+
+var reLenBlock = regexp.MustCompile(`^call:[^(),]*\(mul\(0x8,len\(A\)\)\),call:[^(),]*\(mul\(0x8,len\(C\)\)\)$`)
 
 func c12Inc32(c *Ctx, f *ssa.Function) {
 	if f == nil {
@@ -360,6 +371,18 @@ func c12Mult(c *Ctx, fnm map[string]*ssa.Function) {
 				hc = be.plain(ifi.Cond, ifi).String()
 			}
 			ok = downward && (got == want1 && hc == "ge(i,0x0)" || got == want2 && hc == "gt(i,0x0)")
+			// ... and that loop is all the function does: no other writer of V (a call that is handed V or a slice
+			// of it), and no return that bypasses the loop (a special-cased fast path for some lengths)
+			for _, cl := range allCalls(f) {
+				if _, isBi := cl.Common().Value.(*ssa.Builtin); !isBi {
+					ok = false
+				}
+			}
+			for _, b := range f.Blocks {
+				if _, isRet := b.Instrs[len(b.Instrs)-1].(*ssa.Return); isRet && !ind.Block().Dominates(b) {
+					ok = false
+				}
+			}
 			if !ok {
 				dbg("Rightshift header cond: %s", hc)
 			}
